@@ -389,6 +389,11 @@ def fix_run(args):
                 bad = [(b, s) for b in ref.dMap for s in ref.dMap[b] if oF.oTokenMap.dMap.get(b, {}).get(s) != ref.dMap[b][s]][:1]
                 bad += [(b, s) for b in oF.oTokenMap.dMap for s in oF.oTokenMap.dMap[b] if ref.dMap.get(b, {}).get(s) != oF.oTokenMap.dMap[b][s]][:1]
                 probs["C18"].append((self.unique_id, "token index differs from the token list before analysis (e.g. %r)" % (bad[:1],)))
+            # what the stubs of token_map.New assume on top of that (contracts/extract.py, ASC): every position list is strictly ascending
+            for b, d in oF.oTokenMap.dMap.items():
+                for s_, l in d.items():
+                    if any(l[i] >= l[i + 1] for i in range(len(l) - 1)):
+                        probs["C18"].append((self.unique_id, "token index lists positions out of order for %s.%s" % (b, s_)))
         return orig_analyze(self, oF)
 
     def my_fix(self, oF, dFixOnly=None):
